@@ -33,8 +33,9 @@ PROPS = {"C19": dict(
     stages=stages, level="model_checking",
     rule="(1) TLC runs the memoised pair-comparison machine of Cost.tla over ALL digraphs on 3 (thorough: 4) fragments, "
          "loops and cycles included: it terminates within F*F comparisons; without the memo table TLC exhibits a graph "
-         "exceeding the bound; (2) the harness drives 7 scaled families (abstract nesting depth n x k implementers up to "
-         "64/256, fragment chains with double spreads, fans, meshes, wide selections with one key) through the real "
+         "exceeding the bound; (2) the harness drives 12 scaled families (abstract nesting depth n x k implementers up to "
+         "64/256; fragment chains with double spreads, fans, meshes, diamonds, parallel chains under exclusive and "
+         "non-exclusive parents, wide selections with one key; validation, planning and the plan-cache fingerprint) through the real "
          "ValidateDocument / PlanQuery / ExecutePlan at n = 1..12 (thorough 24), reads the verif step counters, and TLC "
          "(Trace_C19) checks every measurement against Cost!Bound, independence from k and the growth ratio. "
          "Non-trivial = family instance with n >= 3",
